@@ -8,6 +8,7 @@
 -/
 import Frrs.Finalize
 import Frrs.Proofs.Bytes
+import Frrs.Extracted
 namespace Frrs.C14
 open Frrs
 set_option linter.unusedSimpArgs false
@@ -105,5 +106,11 @@ example : headTarget (some b!"refs/heads/main") [b!"refs/heads/main", b!"refs/he
     = some b!"refs/heads/mainin" := by decide +kernel
 example : deletedOldNames [(b!"refs/heads/ma", b!"refs/heads/main"), (b!"refs/heads/main", b!"refs/heads/mainin")]
     [b!"refs/heads/ma", b!"refs/heads/main"] = [b!"refs/heads/ma"] := by decide +kernel
+
+/-! ### order: obligation over the step table extracted from /repo on this run -/
+open Frrs.Pipe in
+/-- **HEAD is final before `git reset --hard`**: every `symbolic-ref HEAD <target>` of finalize()
+    precedes the hard reset, so index and work tree are reset onto the final branch -/
+theorem head_before_reset : HeadBeforeReset Extracted.finalizeEvents = true := by decide +kernel
 
 end Frrs.C14
